@@ -60,7 +60,7 @@ func (s *service) OutOfStoreReceive(ctx context.Context, request *protocoltypes.
 	return &protocoltypes.OutOfStoreReceive_Reply{
 		Message:         outOfStoreMessage,
 		Cleartext:       clearPayload,
-		GroupPublicKey:  group.PublicKey,
+		GroupPublicKey:  group.GetPublicKey(),
 		AlreadyReceived: alreadyDecrypted,
 	}, nil
 }
